@@ -40,5 +40,11 @@ def reproduce_finding(f, ctx):
     return g(f, ctx)
 
 
+def replay_fails(pid, payload, impl_lines, model_lines):
+    """for replay files written by a hook: does the (agreeing) observation still violate the property?"""
+    g = getattr(MODS[pid], "replay_fails", None)
+    return bool(g(payload, impl_lines, model_lines)) if g else False
+
+
 def hook(pid, name):
     return getattr(MODS[pid], name)
